@@ -1,7 +1,7 @@
 HP_G = 'hp:slot,gops_k1,gops_k2,gops_k3,gops_k5,acq_k2,acq_k3,acq_int_k1,acq_int_k2,acq_int_k3,acq_int_k5'
 EBR_G = 'ebr:g_ctor,g_copy,g_move,g_reset,g_dtor,g_assign_copy,g_assign_move,g_reclaim,region_guard,g_acquire,g_acquire_int,g_acquire_if_equal,g_acquire_if_equal_int'
 QSBR_G = 'qsbr:region_guard,g_ctor,g_copy_ctor,g_move_ctor,g_copy_assign,g_move_assign,g_swap,g_reset,g_reclaim,g_acquire,g_acquire_int,g_aie,g_aie_int'
-LFRC_G = 'lfrc:layout,g_ctor,g_copy_ctor,g_move_ctor,g_copy_assign,g_move_assign,g_swap,g_reset,g_reclaim,g_acquire,g_acquire_int,g_aie,g_aie_int'
+LFRC_G = 'lfrc:layout,hdr,g_ctor,g_copy_ctor,g_move_ctor,g_copy_assign,g_move_assign,g_swap,g_reset,g_reclaim,g_acquire,g_acquire_int,g_aie,g_aie_int'
 STAMP_G = 'stampit_guard:gp_ctor,gp_assign,gp_reset,gp_reclaim,gp_acquire,gp_acquire_int'
 PROP = dict(
   units=['he:g_ctor_K1,g_assign_K1,g_reset_swap_reclaim_K1,g_acquire_K1,g_acquire_if_equal_K1,int_acquire_K1,int_acquire_if_equal_K1,g_ctor_K2,g_assign_K2,g_reset_swap_reclaim_K2,g_acquire_K2,g_acquire_if_equal_K2,int_acquire_K2,int_acquire_if_equal_K2,g_ctor_K3,g_assign_K3,g_reset_swap_reclaim_K3,g_acquire_K3,g_acquire_if_equal_K3,int_acquire_K3,int_acquire_if_equal_K3', 'mp', 'cptr', HP_G, EBR_G, QSBR_G, LFRC_G, STAMP_G],
@@ -13,7 +13,7 @@ PROP = dict(
                'hp.reclaim.retires_and_resets', 'hp.guard_ops.preserve_inv', 'hp.guard_ops.empty_holds_no_slot', 'hp.acquire.snapshot', 'hp.acquire_if_equal.iff',
                'ebr.copy.shares', 'ebr.move.empties_source', 'ebr.nesting.balanced', 'ebr.acquire.snapshot', 'ebr.reclaim.retires_once',
                'qsbr.guard.algebra', 'qsbr.guard.region_balance', 'qsbr.acquire.snapshot', 'qsbr.acquire_if_equal.iff', 'qsbr.reclaim.retires_once',
-               'lfrc.layout', 'lfrc.guard.algebra', 'lfrc.acquire.snapshot', 'lfrc.acquire_if_equal.iff', 'lfrc.reclaim.once',
+               'lfrc.layout', 'lfrc.header.accessors', 'lfrc.guard.algebra', 'lfrc.acquire.snapshot', 'lfrc.acquire_if_equal.iff', 'lfrc.reclaim.once',
                'stamp.region.balanced', 'stamp.acquire.enter_before_load'],
   explanation='marked_ptr algebra for fully symbolic MarkBits/MaxUpperMarkBits and all 64-bit pointer/mark values (every constant extracted from the header), concurrent_ptr forwarding, '
               'and the guard_ptr smart-pointer algebra of every reclaimer (hazard_pointer, generic_epoch_based, quiescent_state_based, lock_free_ref_count, stamp_it; hazard_eras): '
